@@ -180,6 +180,8 @@ def plan_C02(tier, seed):
                 "set_chunk_size(1..65536), check_io_error) on a bare DeferredReader built via from_read / from_boxed_dyn_read / "
                 "from_buf_reader(empty - capacity 0 included - and partly consumed BufReader with capacities 2..200 and 4096..70000, the latter "
                 "holding more than one default chunk on long one-shot streams), over position-identifying zero-free streams of 0..1 MiB "
+                "(one history in 120 starts with a look-ahead of 1..2 MiB on a 3..4 MiB stream, a mark, nearly all of it "
+                "consumed and a refill) "
                 "delivered under one-shot, fixed-k, two-part, random and random+Interrupted schedules (one history in ten with a "
                 "storm of 127..1000 consecutive Interrupted results) ending in EOF, early EOF "
                 "or a terminal error at a random offset. After EVERY operation: buf()==stream[cursor..delivered], buf_len, "
@@ -195,6 +197,7 @@ def plan_C02(tier, seed):
                    "mark_checks_far_after_refill": q(tier, 100_000, 1_000_000),
                    "variant:from_buf_reader(partly consumed)": 1000, "ended_err": 1000,
                    "bufreader_held_more_than_one_chunk": q(tier, 1000, 20_000),
+                   "histories_with_a_look_ahead_above_1_mib": q(tier, 300, 5_000),
                    "interrupted_retries": 10_000, "distinct_nontrivial": q(tier, 3_000, 100_000)},
         "assumptions": ["position() wrap-around at 2^64 bytes cannot be driven; only set_mark_to_position exercises wrapping mark arithmetic"],
     }
